@@ -128,6 +128,11 @@ func identity(v ssa.Value) ssa.Value { return v }
 // trueGuardedBy: in g, every exit that can answer true lies past all conjuncts (as a branch taken, or as the
 // returned boolean itself); returns the missing ones.
 func trueGuardedBy(c *Ctx, g *ssa.Function, through func(ssa.Value) ssa.Value, conj []conjunct) []string {
+	return answerGuardedBy(c, g, through, conj, true)
+}
+
+// answerGuardedBy: whenever g answers `want`, every conjunct has been established.
+func answerGuardedBy(c *Ctx, g *ssa.Function, through func(ssa.Value) ssa.Value, conj []conjunct, want bool) []string {
 	rets := returnsOf(g)
 	if len(rets) == 0 {
 		return []string{"no answer"}
@@ -136,16 +141,16 @@ func trueGuardedBy(c *Ctx, g *ssa.Function, through func(ssa.Value) ssa.Value, c
 	for _, cj := range conj {
 		cp := cj.cond(through)
 		ep := cj.edge(through)
-		var implied func(v ssa.Value, at func() bool, depth int) bool
-		implied = func(v ssa.Value, at func() bool, depth int) bool {
+		var implied func(v ssa.Value, want bool, at func() bool, depth int) bool
+		implied = func(v ssa.Value, want bool, at func() bool, depth int) bool {
 			if b, isC := constBool(v); isC {
-				return !b || at()
+				return b != want || at()
 			}
 			base, neg := stripNot(v)
-			if d, tm := cp(base); d && tm != neg {
+			if d, tm := cp(base); d && tm == (want != neg) {
 				return true
 			}
-			if p, isPhi := base.(*ssa.Phi); isPhi && !neg && depth < 4 {
+			if p, isPhi := base.(*ssa.Phi); isPhi && depth < 4 {
 				for i, e := range p.Edges {
 					pred := p.Block().Preds[i]
 					si := 0
@@ -155,7 +160,7 @@ func trueGuardedBy(c *Ctx, g *ssa.Function, through func(ssa.Value) ssa.Value, c
 						}
 					}
 					edge := []CFGEdge{{pred, si}}
-					if !implied(e, func() bool {
+					if !implied(e, want != neg, func() bool {
 						w, _ := (&Cut{Fn: g, TargetEdge: edgeSet(edge), EdgeCut: ep}).Run(c)
 						return w == ""
 					}, depth+1) {
@@ -169,7 +174,7 @@ func trueGuardedBy(c *Ctx, g *ssa.Function, through func(ssa.Value) ssa.Value, c
 		ok := true
 		for _, ret := range rets {
 			ret := ret
-			if !implied(retVal(ret, 0), func() bool {
+			if !implied(retVal(ret, 0), want, func() bool {
 				w, _ := (&Cut{Fn: g, Target: isInstr(ret), EdgeCut: ep}).Run(c)
 				return w == ""
 			}, 0) {
@@ -181,6 +186,17 @@ func trueGuardedBy(c *Ctx, g *ssa.Function, through func(ssa.Value) ssa.Value, c
 		}
 	}
 	return missing
+}
+
+// negate: the conjunct's complement (for "answers false only when the condition fails").
+func (cj conjunct) negate() conjunct {
+	return conjunct{name: "not " + cj.name, cond: func(th func(ssa.Value) ssa.Value) condPred {
+		cp := cj.cond(th)
+		return func(v ssa.Value) (bool, bool) {
+			d, tm := cp(v)
+			return d, !tm
+		}
+	}}
 }
 
 // matchEdges looks for the membership test over a list satisfying isList in f.
